@@ -442,6 +442,26 @@ impl<'a> Explorer<'a> {
                         }
                     }
                 }
+                if (self.focus.applier || self.focus.keys) && mv.promo == rules::Q {
+                    // a promotion whose fifth letter the applier does not know: whatever board the engine decides
+                    // to build for it (it documents "default to queen"), the key it keeps must be the key of THAT
+                    // board (C05: the key depends on the position only). The oracle reads the engine's own board
+                    // back, so it demands nothing about which piece is chosen; a panic is no verdict here.
+                    for letter in ['k', 'p', 'x', 'Q', '0'] {
+                        let text = format!("{}{}", &mv.uci()[..4], letter);
+                        let mut b3 = board.clone();
+                        if catch_unwind(AssertUnwindSafe(|| crate::uci::verif_make_move(&mut b3, &text, h))).is_ok() {
+                            if let Some(p3) = pos_of_board(&b3) {
+                                let k3 = scratch_key(&p3, h);
+                                if b3.zobrist_key != k3 {
+                                    let prop = if rep.property == "C04" { "C04" } else { "C05" };
+                                    rep.fail(prop, "applier-key/unknown-promotion-letter", format!("{} text move {}: the applier built {} but keeps key {} != scratch key {} of that board", pos.fen(), text, p3.fen(), b3.zobrist_key, k3), self.edge_json(node, &mv, &format!("text applier key vs scratch key of its own board, text move {}", text)));
+                                }
+                                bump(l, "promotions_replayed_with_an_unknown_fifth_letter");
+                            }
+                        }
+                    }
+                }
                 // (promotions are extended in the thorough tier only; the promo+rights family follows them anyway)
                 let special = pos.is_castle(&mv) || pos.is_en_passant(&mv) || (mv.promo != 0 && !self.rep.quick());
                 if expand || (extend && special) {
